@@ -105,6 +105,146 @@ static char *text_of (MIR_context_t ctx, size_t *len) {
   return p;
 }
 
+/* ---------------------------------------------------------------- structural dump through the API
+   What a context IS (not how it prints): every item, signature, variable, insn and operand field read from the
+   public structures, one element per line.  Not shown: what no writer can carry (scale of an index-less memory
+   operand, size of a non-block argument), link-time and internal fields.  Numbers are hex without leading zeros
+   (int64 as their 64-bit pattern). */
+static const char *tname (MIR_type_t t) {
+  static const char *nm[] = {"i8", "u8", "i16", "u16", "i32", "u32", "i64", "u64", "f", "d", "ld", "p"};
+  static char buf[32];
+  if (t >= MIR_T_I8 && t <= MIR_T_P) return nm[t - MIR_T_I8];
+  if (t == MIR_T_RBLK) return "rblk";
+  if (t == MIR_T_UNDEF) return "undef";
+  if (t >= MIR_T_BLK && t < MIR_T_BLK + MIR_BLK_NUM) { snprintf (buf, sizeof (buf), "blk%d", (int) (t - MIR_T_BLK)); return buf; }
+  snprintf (buf, sizeof (buf), "type%d", (int) t);
+  return buf;
+}
+static int blk_like (MIR_type_t t) { return t == MIR_T_RBLK || (t >= MIR_T_BLK && t < MIR_T_BLK + MIR_BLK_NUM); }
+static const char *nm_or_dash (const char *s) { return s == NULL ? "-" : s; }
+static void put_ld_hex (FILE *f, const void *p) { /* the 80 significant bits of an x87 long double */
+  uint64_t lo;
+  uint16_t hi;
+  memcpy (&lo, p, 8);
+  memcpy (&hi, (const char *) p + 8, 2);
+  if (hi != 0) fprintf (f, "%x%016llx", (unsigned) hi, (unsigned long long) lo);
+  else fprintf (f, "%llx", (unsigned long long) lo);
+}
+static void dump_sig (FILE *f, MIR_context_t ctx, uint32_t nres, MIR_type_t *res, VARR (MIR_var_t) * vars, size_t nargs) {
+  for (uint32_t i = 0; i < nres; i++) fprintf (f, " %s", tname (res[i]));
+  for (size_t i = 0; i < nargs; i++) {
+    MIR_var_t v = VARR_GET (MIR_var_t, vars, i);
+    fprintf (f, " %s:%s", tname (v.type), nm_or_dash (v.name));
+    if (blk_like (v.type)) fprintf (f, ":%llx", (unsigned long long) v.size);
+  }
+}
+static void dump_op (FILE *f, MIR_context_t ctx, MIR_func_t func, MIR_op_t op) {
+  switch (op.mode) {
+  case MIR_OP_REG: fprintf (f, " r:%s", MIR_reg_name (ctx, op.u.reg, func)); break;
+  case MIR_OP_INT: fprintf (f, " i:%llx", (unsigned long long) op.u.i); break;
+  case MIR_OP_UINT: fprintf (f, " u:%llx", (unsigned long long) op.u.u); break;
+  case MIR_OP_FLOAT: { uint32_t u; memcpy (&u, &op.u.f, 4); fprintf (f, " f:%x", (unsigned) u); break; }
+  case MIR_OP_DOUBLE: { uint64_t u; memcpy (&u, &op.u.d, 8); fprintf (f, " d:%llx", (unsigned long long) u); break; }
+  case MIR_OP_LDOUBLE: fprintf (f, " ld:"); put_ld_hex (f, &op.u.ld); break;
+  case MIR_OP_REF: fprintf (f, " ref:%s", nm_or_dash (MIR_item_name (ctx, op.u.ref))); break;
+  case MIR_OP_STR: fprintf (f, " s:"); put_hex (f, (const uint8_t *) op.u.str.s, op.u.str.len); break;
+  case MIR_OP_LABEL: fprintf (f, " l:%lld", (long long) op.u.label->ops[0].u.i); break;
+  case MIR_OP_MEM:
+    fprintf (f, " m:%s:%llx:%s:%s:", tname (op.u.mem.type), (unsigned long long) op.u.mem.disp,
+             op.u.mem.base != 0 ? MIR_reg_name (ctx, op.u.mem.base, func) : "-",
+             op.u.mem.index != 0 ? MIR_reg_name (ctx, op.u.mem.index, func) : "-");
+    if (op.u.mem.index != 0) fprintf (f, "%u", (unsigned) op.u.mem.scale); else fprintf (f, "-");
+    fprintf (f, ":%s", op.u.mem.alias != 0 ? MIR_alias_name (ctx, op.u.mem.alias) : "-");
+    fprintf (f, ":%s", op.u.mem.nonalias != 0 ? MIR_alias_name (ctx, op.u.mem.nonalias) : "-");
+    break;
+  default: fprintf (f, " mode%d", (int) op.mode); break;
+  }
+}
+static char *struct_of (MIR_context_t ctx, size_t *len) {
+  char *p = NULL;
+  FILE *f = open_memstream (&p, len);
+  for (MIR_module_t m = DLIST_HEAD (MIR_module_t, *MIR_get_module_list (ctx)); m != NULL; m = DLIST_NEXT (MIR_module_t, m)) {
+    fprintf (f, "module %s\n", m->name);
+    for (MIR_item_t it = DLIST_HEAD (MIR_item_t, m->items); it != NULL; it = DLIST_NEXT (MIR_item_t, it)) {
+      switch (it->item_type) {
+      case MIR_import_item: fprintf (f, "import %s\n", it->u.import_id); break;
+      case MIR_export_item: fprintf (f, "export %s\n", it->u.export_id); break;
+      case MIR_forward_item: fprintf (f, "forward %s\n", it->u.forward_id); break;
+      case MIR_bss_item: fprintf (f, "bss %s %llx\n", nm_or_dash (it->u.bss->name), (unsigned long long) it->u.bss->len); break;
+      case MIR_data_item: {
+        MIR_data_t d = it->u.data;
+        size_t sz = _MIR_type_size (ctx, d->el_type);
+        fprintf (f, "data %s %s", nm_or_dash (d->name), tname (d->el_type));
+        for (size_t i = 0; i < d->nel; i++) {
+          fputc (' ', f);
+          if (d->el_type == MIR_T_LD) {
+            put_ld_hex (f, d->u.els + i * sz);
+          } else {
+            uint64_t u = 0;
+            memcpy (&u, d->u.els + i * sz, sz > 8 ? 8 : sz);
+            fprintf (f, "%llx", (unsigned long long) u);
+          }
+        }
+        fputc ('\n', f);
+        break;
+      }
+      case MIR_ref_data_item:
+        fprintf (f, "ref %s %s %llx\n", nm_or_dash (it->u.ref_data->name), nm_or_dash (MIR_item_name (ctx, it->u.ref_data->ref_item)),
+                 (unsigned long long) it->u.ref_data->disp);
+        break;
+      case MIR_lref_data_item: {
+        MIR_lref_data_t l = it->u.lref_data;
+        fprintf (f, "lref %s l:%lld ", nm_or_dash (l->name), (long long) l->label->ops[0].u.i);
+        if (l->label2 != NULL) fprintf (f, "l:%lld", (long long) l->label2->ops[0].u.i); else fprintf (f, "-");
+        fprintf (f, " %llx\n", (unsigned long long) l->disp);
+        break;
+      }
+      case MIR_expr_data_item:
+        fprintf (f, "expr %s %s\n", nm_or_dash (it->u.expr_data->name), nm_or_dash (MIR_item_name (ctx, it->u.expr_data->expr_item)));
+        break;
+      case MIR_proto_item: {
+        MIR_proto_t pr = it->u.proto;
+        fprintf (f, "proto %s %d", pr->name, pr->vararg_p != 0);
+        dump_sig (f, ctx, pr->nres, pr->res_types, pr->args, VARR_LENGTH (MIR_var_t, pr->args));
+        fputc ('\n', f);
+        break;
+      }
+      case MIR_func_item: {
+        MIR_func_t fn = it->u.func;
+        fprintf (f, "func %s %d", fn->name, fn->vararg_p != 0);
+        dump_sig (f, ctx, fn->nres, fn->res_types, fn->vars, fn->nargs);
+        fputc ('\n', f);
+        for (size_t i = fn->nargs; i < VARR_LENGTH (MIR_var_t, fn->vars); i++) {
+          MIR_var_t v = VARR_GET (MIR_var_t, fn->vars, i);
+          fprintf (f, "local %s %s\n", tname (v.type), v.name);
+        }
+        if (fn->global_vars != NULL)
+          for (size_t i = 0; i < VARR_LENGTH (MIR_var_t, fn->global_vars); i++) {
+            MIR_var_t v = VARR_GET (MIR_var_t, fn->global_vars, i);
+            fprintf (f, "global %s %s %s\n", tname (v.type), v.name,
+                     nm_or_dash (MIR_reg_hard_reg_name (ctx, MIR_reg (ctx, v.name, fn), fn)));
+          }
+        for (MIR_insn_t insn = DLIST_HEAD (MIR_insn_t, fn->insns); insn != NULL; insn = DLIST_NEXT (MIR_insn_t, insn)) {
+          if (insn->code == MIR_LABEL) {
+            fprintf (f, "label l:%lld\n", (long long) insn->ops[0].u.i);
+            continue;
+          }
+          fprintf (f, "insn %s %u", MIR_insn_name (ctx, insn->code), (unsigned) insn->nops);
+          for (size_t i = 0; i < insn->nops; i++) dump_op (f, ctx, fn, insn->ops[i]);
+          fputc ('\n', f);
+        }
+        fprintf (f, "endfunc\n");
+        break;
+      }
+      default: fprintf (f, "item%d\n", (int) it->item_type); break;
+      }
+    }
+    fprintf (f, "endmodule\n");
+  }
+  fclose (f);
+  return p;
+}
+
 /* ---------------------------------------------------------------- building from a description */
 #define MAXTOK 4096
 #define MAXLAB 100000
@@ -271,8 +411,24 @@ static void probe_fresh (FILE *out, const char *tag, MIR_context_t ctx) {
   fprintf (out, "|FR%s=ok", tag);
 }
 
+/* what the separately built contexts print / are: the context that combines them must print / be the same */
+static buf_t seg_text, seg_struct;
+static void buf_add (buf_t *b, const char *p, size_t n) {
+  for (size_t i = 0; i < n; i++) buf_push (b, (uint8_t) p[i]);
+}
+
 static void seg_flush (MIR_context_t ctx) {
   if (nsegs >= MAXSEG) { fprintf (stderr, "harness: too many segments\n"); exit (3); }
+  seg_stage = "segment-output";
+  {
+    size_t n;
+    char *t = text_of (ctx, &n);
+    buf_add (&seg_text, t, n);
+    free (t);
+    t = struct_of (ctx, &n);
+    buf_add (&seg_struct, t, n);
+    free (t);
+  }
   seg_stage = "segment-write";
   memset (&wbuf, 0, sizeof (wbuf));
   MIR_write_with_func (ctx, writer);
@@ -469,10 +625,15 @@ static void emit_text (FILE *out, const char *tag, const char *t, size_t n, cons
 
 /* statics: they are live across setjmp/longjmp */
 static MIR_context_t a, b, c, d;
-static char *t0, *t1, *t2, *t3;
-static size_t n0, n1, n2, n3;
-static buf_t w1, w2;
-static int have_w1, rb_ok, sc_ok;
+static char *t0, *t1, *t2, *t3, *s0, *s1, *s2;
+static size_t n0, n1, n2, n3, ns0, ns1, ns2;
+static buf_t w1, w2, pw;
+static int have_w1, rb_ok, sc_ok, have_pw;
+static size_t nmods;
+static MIR_module_t last_mod;
+#define MAXMOD 16
+static buf_t mod_img[MAXMOD];
+static int buf_eq (const buf_t *x, const buf_t *y) { return x->n == y->n && (x->n == 0 || memcmp (x->p, y->p, x->n) == 0); }
 
 /* "rawscan HEX": MIR_scan_string on arbitrary (possibly erroneous) text: an error list is fine, a crash is not */
 static void run_rawscan (FILE *out, const char *hex) {
@@ -500,9 +661,11 @@ static void run_case (FILE *out, char *desc) {
     run_rawscan (out, desc + 8);
     return;
   }
-  t0 = t2 = NULL;
-  n0 = n2 = 0;
+  t0 = t2 = s0 = NULL;
+  n0 = n2 = ns0 = 0;
   have_w1 = rb_ok = sc_ok = 0;
+  memset (&seg_text, 0, sizeof (seg_text));
+  memset (&seg_struct, 0, sizeof (seg_struct));
 
   labels = calloc (MAXLAB, sizeof (MIR_label_t));
   nlabels = 0;
@@ -529,8 +692,36 @@ static void run_case (FILE *out, char *desc) {
   } else {
     t0 = text_of (a, &n0);
     emit_text (out, "T0", t0, n0, NULL, 0);
+    s0 = struct_of (a, &ns0);
+    emit_text (out, "S0", s0, ns0, NULL, 0);
+    if (nsegs > 0) {
+      /* the context under test was put together by the binary reader from separately written modules */
+      emit_text (out, "TS", (char *) seg_text.p, seg_text.n, t0, n0);
+      emit_text (out, "SS", (char *) seg_struct.p, seg_struct.n, s0, ns0);
+    }
   }
   fflush (out);
+
+  /* one module written on its own BEFORE anything else is written from this context: the same module written again
+     after other writes (stage file-io) must give these bytes */
+  nmods = 0;
+  last_mod = NULL;
+  for (MIR_module_t m = DLIST_HEAD (MIR_module_t, *MIR_get_module_list (a)); m != NULL; m = DLIST_NEXT (MIR_module_t, m)) {
+    nmods++;
+    last_mod = m;
+  }
+  have_pw = 0;
+  if (last_mod != NULL) {
+    STAGE ("write-module-first");
+    if (setjmp (err_jmp)) {
+      fprintf (out, "|P1=ERR:%s", err_msg);
+    } else {
+      memset (&wbuf, 0, sizeof (wbuf));
+      MIR_write_module_with_func (a, writer, last_mod);
+      pw = wbuf;
+      have_pw = 1;
+    }
+  }
 
   STAGE ("write");
   if (setjmp (err_jmp)) {
@@ -573,6 +764,8 @@ static void run_case (FILE *out, char *desc) {
       STAGE ("output-after-read");
       t1 = text_of (b, &n1);
       emit_text (out, "T1", t1, n1, t0, n0);
+      s1 = struct_of (b, &ns1);
+      emit_text (out, "S1", s1, ns1, s0, ns0);
       emit_counters (out, "1", b);
       /* what was read, written again: the bytes must be the bytes it was read from (every immediate bit for
          bit, also where the text does not show it: NaN payloads, sizes the text abbreviates) */
@@ -607,16 +800,66 @@ static void run_case (FILE *out, char *desc) {
       else fprintf (out, "|WF=differs:%zu/%zu", fp_n, w1.n);
       g = MIR_init ();
       MIR_set_error_func (g, err_func);
-      for (MIR_module_t m = DLIST_HEAD (MIR_module_t, *MIR_get_module_list (a)); m != NULL; m = DLIST_NEXT (MIR_module_t, m)) {
+      /* write history: the bytes of a module set do not depend on what the context wrote before.  Every module on
+         its own through both entry points (FILE* and callback), in order, then in reverse order, then everything
+         again; WH = '=' or the first difference */
+      char wh[200] = "=";
+      size_t k = 0;
+      for (MIR_module_t m = DLIST_HEAD (MIR_module_t, *MIR_get_module_list (a)); m != NULL; m = DLIST_NEXT (MIR_module_t, m), k++) {
         char *mb = NULL;
         size_t mn = 0;
         mf = open_memstream (&mb, &mn);
         MIR_write_module (a, mf, m);
         fclose (mf);
+        if (k < MAXMOD) {
+          memset (&wbuf, 0, sizeof (wbuf));
+          MIR_write_module_with_func (a, writer, m);
+          mod_img[k] = wbuf;
+          if ((wbuf.n != mn || memcmp (wbuf.p, mb, mn) != 0) && wh[0] == '=')
+            snprintf (wh, sizeof (wh), "module %zu of %zu: MIR_write_module gives %zu bytes, MIR_write_module_with_func %zu bytes or other bytes",
+                      k + 1, nmods, mn, wbuf.n);
+        }
         mf = fmemopen (mb, mn > 0 ? mn : 1, "rb");
         MIR_read (g, mf);
         fclose (mf);
       }
+      if (have_pw && nmods <= MAXMOD && !buf_eq (&pw, &mod_img[nmods - 1]) && wh[0] == '=')
+        snprintf (wh, sizeof (wh), "module %zu of %zu written twice: %zu bytes as the first write of the context, %zu bytes or other "
+                  "bytes after other writes", nmods, nmods, pw.n, mod_img[nmods - 1].n);
+      if (nmods == 1 && !buf_eq (&mod_img[0], &w1) && wh[0] == '=')
+        snprintf (wh, sizeof (wh), "the only module: MIR_write_module_with_func gives %zu bytes, MIR_write_with_func %zu bytes or other bytes",
+                  mod_img[0].n, w1.n);
+      {
+        MIR_module_t rev[MAXMOD];
+        size_t nr = 0;
+        for (MIR_module_t m = DLIST_HEAD (MIR_module_t, *MIR_get_module_list (a)); m != NULL && nr < MAXMOD; m = DLIST_NEXT (MIR_module_t, m))
+          rev[nr++] = m;
+        for (size_t i = nr; i-- > 0;) {
+          memset (&wbuf, 0, sizeof (wbuf));
+          MIR_write_module_with_func (a, writer, rev[i]);
+          if (!buf_eq (&wbuf, &mod_img[i]) && wh[0] == '=')
+            snprintf (wh, sizeof (wh), "module %zu of %zu written twice with other writes in between: %zu bytes, then %zu bytes or other bytes",
+                      i + 1, nmods, mod_img[i].n, wbuf.n);
+          free (wbuf.p);
+        }
+        memset (&wbuf, 0, sizeof (wbuf));
+        MIR_write_with_func (a, writer);
+        if (!buf_eq (&wbuf, &w1) && wh[0] == '=')
+          snprintf (wh, sizeof (wh), "all modules written again after the single-module writes: %zu bytes, first %zu bytes or other bytes",
+                    wbuf.n, w1.n);
+        free (wbuf.p);
+        memset (&wbuf, 0, sizeof (wbuf));
+      }
+      fprintf (out, "|WH=%s", wh);
+#ifdef MIR_NO_BIN_COMPRESSION
+      if (nmods > 1 && nmods <= MAXMOD) { /* raw single-module images for the comparison with the model writer */
+        fprintf (out, "|MW=");
+        for (size_t i = 0; i < nmods; i++) {
+          put_hex (out, mod_img[i].p, mod_img[i].n);
+          fputc (',', out);
+        }
+      }
+#endif
       fprintf (out, "|RM=ok");
       tg = text_of (g, &ng);
       emit_text (out, "TM", tg, ng, t0, n0);
@@ -646,6 +889,8 @@ static void run_case (FILE *out, char *desc) {
       STAGE ("output-after-scan");
       t2 = text_of (c, &n2);
       emit_text (out, "T2", t2, n2, t0, n0);
+      s2 = struct_of (c, &ns2);
+      emit_text (out, "S2", s2, ns2, s0, ns0);
       emit_counters (out, "2", c);
     }
     fflush (out);
